@@ -335,6 +335,16 @@ pub fn plan(tier: Tier) -> Plan {
             do_case(&kvs, Front::MapInsert, DEFAULT_GEOM, false, st, rep);
         }
     }));
+    // (d4) long keys
+    p.units.push(unit("long-key-family", "long keys".into(), move |st, rep| {
+        for (_, kvs) in long_key_family() {
+            st.nontrivial += 1;
+            st.count("long_key_cases", 1);
+            do_case(&kvs, Front::RawInsert, (2, 2), true, st, rep);
+            do_case(&kvs, Front::SetInsert, DEFAULT_GEOM, false, st, rep);
+            do_case(&kvs, Front::MapExtendStreamMap, DEFAULT_GEOM, false, st, rep);
+        }
+    }));
     // (e) size families (thorough): 2-, 3- and 4-byte address deltas
     if thorough {
         for n in [3_000u64, 70_000, 1_200_000] {
